@@ -1,5 +1,5 @@
 (* Seq_driver.ml — correspondence driver for the Array / List / Tuple models (C04).
-   stdin: one case per line   <K>|<op> <op> ...
+   stdin: one case per line   <K><flags>|<op> <op> ...   (flags: see harness/seq_wb.c)
      K: A = Array of Int, L = List of Int, T = heap Tuple of (distinct) Int objects,
         S = Tuple on the stack (cannot be reallocated), F = finding F3 probe (Tuple holding the
         same object twice; only `N` and dumps)
@@ -45,14 +45,19 @@ let parse_op s =
 let vs_s l = String.concat "," (List.map (fun (_, v) -> z_to_dec v) l)
 let res_s = function Ok l -> vs_s l | Crash -> "CRASH" | Fuel -> "RUNAWAY"
 (* dump through the model's own get / mem / iteration *)
+(* how: '!' full dump, '^' indexed gets only, '~' iteration and mem only, ' ' len only *)
+let how = ref '!'
 let dump n (get : z -> string) (mem : z -> string) iter w =
+  if !how = ' ' then string_of_int n else
+  let ms () = String.concat "" (List.map (fun p -> mem (z_of_int p)) probes) in
+  if !how = '~' then Printf.sprintf "%d;~;%s;%s" n iter (ms ()) else
   let g = List.init n (fun i -> get (z_of_int i)) in
   let ng = List.init n (fun i -> get (z_of_int (-(i + 1)))) in
   let gs = String.concat "," g in
   let ns = if ng = List.rev g then "=" else String.concat "," ng in
+  if !how = '^' then Printf.sprintf "%d;^;%s;%s" n gs ns else
   let is = if iter = gs then "=" else iter in
-  let ms = String.concat "" (List.map (fun p -> mem (z_of_int p)) probes) in
-  Printf.sprintf "%d;%s;%s;%s;%s;%s" n gs ns is ms w
+  Printf.sprintf "%d;%s;%s;%s;%s;%s" n gs ns is (ms ()) w
 let val_s = function OVal (_, v) -> z_to_dec v | o -> "!" ^ out_s o
 let bit_s = function OBool true -> "1" | OBool false -> "0" | o -> "!" ^ out_s o
 let dump_a a =
@@ -71,15 +76,29 @@ let dump_t t =
 let dump_spec l =
   let ms = String.concat "" (List.map (fun p ->
       bit_s (snd (zspec_step KArray l (SMem (probe (z_of_int p)))))) probes) in
-  Printf.sprintf "%d;%s;%s" (List.length l) (vs_s l) ms
+  match !how with
+  | ' ' -> string_of_int (List.length l)
+  | '~' -> Printf.sprintf "%d;~;%s;%s" (List.length l) (vs_s l) ms
+  | '^' -> Printf.sprintf "%d;^;%s" (List.length l) (vs_s l)
+  | _ -> Printf.sprintf "%d;%s;%s" (List.length l) (vs_s l) ms
+(* explicit dump mode: an operation token may end in '!', '^' or '~' (see harness/seq_wb.c) *)
+let explicit = ref false
+let split_how o =
+  if not !explicit then (how := '!'; o) else begin
+    let n = String.length o in
+    if n > 1 && (o.[n - 1] = '!' || o.[n - 1] = '^' || o.[n - 1] = '~')
+    then (how := o.[n - 1]; String.sub o 0 (n - 1)) else (how := ' '; o) end
 let run_model kind init ops =
   let buf = Buffer.create 1024 in
   let go new_ step dump =
     let s0 = new_ init in
+    how := '!';
     Buffer.add_string buf ("new;" ^ dump s0);
-    ignore (List.fold_left (fun s o ->
+    let sn = List.fold_left (fun s o ->
+      let o = split_how o in
       let (s', out) = step s (parse_op o) in
-      Buffer.add_string buf (" | " ^ out_s out ^ ";" ^ dump s'); s') s0 ops) in
+      Buffer.add_string buf (" | " ^ out_s out ^ ";" ^ dump s'); s') s0 ops in
+    if !explicit then (how := '!'; Buffer.add_string buf (" | end;" ^ dump sn)) in
   (match kind with
    | "A" -> go za_new za_step dump_a
    | "L" -> go zl_new zl_step dump_l
@@ -102,14 +121,17 @@ let run_spec kind init ops =
   let heap = ref (kind <> "S") in
   if kind = "F" then Buffer.add_string buf "new;2;5,5"
   else begin
+    how := '!';
     Buffer.add_string buf ("new;" ^ dump_spec init);
-    (try ignore (List.fold_left (fun l o ->
+    (try let ln = List.fold_left (fun l o ->
+      let o = split_how o in
       let op = parse_op o in
       if not (zspec_in_range k l op) || (not !heap && mutating_realloc op) then begin
         Buffer.add_string buf " | OOR"; raise Exit end;
       if op = SCopy then heap := true;
       let (l', out) = zspec_step k l op in
-      Buffer.add_string buf (" | " ^ out_s out ^ ";" ^ dump_spec l'); l') init ops)
+      Buffer.add_string buf (" | " ^ out_s out ^ ";" ^ dump_spec l'); l') init ops in
+      if !explicit then (how := '!'; Buffer.add_string buf (" | end;" ^ dump_spec ln))
      with Exit -> ())
   end;
   Buffer.contents buf
@@ -118,8 +140,11 @@ let () =
   read_lines (fun line ->
     ctr := 0;
     match String.index_opt line '|' with
-    | Some 1 ->
+    | Some b when b >= 1 ->
       let kind = String.sub line 0 1 in
+      (* flags between the kind and '|': '*' explicit dump mode, e<size> struct elements (the
+         models are the same for every element type) *)
+      explicit := String.contains (String.sub line 1 (b - 1)) '*';
       let ops = List.filter (fun s -> s <> "") (String.split_on_char ' ' (after '|' line)) in
       let init, ops = match ops with
         | o :: r when o.[0] = 'N' -> vals (rest o), r
